@@ -23,6 +23,31 @@ func init() { Register(&Check{ID: "C01", Level: "model_checking", Run: runC01}) 
 type c01Aux struct {
 	minterUpdated bool // a governance update replaced the schedule: the closed form no longer applies
 	minted        *big.Int
+	dm            *ref.DistModel // what the fee-distribution configuration says should happen to the coins
+}
+
+// subsFromParams turns stored distributor parameters into the reference model's configuration.
+func subsFromParams(p dtypes.Params) []ref.DSub {
+	var out []ref.DSub
+	for _, sd := range p.SubDistributors {
+		d := ref.DSub{Name: sd.Name, Primary: ref.DAccount{Type: sd.Destinations.PrimaryShare.Type, ID: sd.Destinations.PrimaryShare.Id}, Burn: sd.Destinations.BurnShare.BigInt()}
+		for _, a := range sd.Sources {
+			d.Sources = append(d.Sources, ref.DAccount{Type: a.Type, ID: a.Id})
+		}
+		for _, sh := range sd.Destinations.Shares {
+			d.Shares = append(d.Shares, ref.DShare{Name: sh.Name, Dest: ref.DAccount{Type: sh.Destination.Type, ID: sh.Destination.Id}, Share: sh.Share.BigInt()})
+		}
+		out = append(out, d)
+	}
+	return out
+}
+
+func amtOfCoins(c sdk.Coins) ref.Amt {
+	a := ref.Amt{}
+	for _, x := range c {
+		a[x.Denom] = x.Amount.BigInt()
+	}
+	return a
 }
 
 func c01Genesis() harness.Genesis {
@@ -59,6 +84,11 @@ func c01Events() []Ev {
 			c := mintCfg{Periods: []mp{{Kind: ref.Linear, Amount: "1000", End: 30 * time.Second}, {Kind: ref.ExpStep, Amount: "50", Step: 10 * time.Second, Mult: "1", End: 90 * time.Second}, {Kind: ref.NoMint}}}
 			p := c.Params()
 			return &mtypes.MsgUpdateMintersParams{Authority: gov, StartTime: p.StartTime, Minters: p.Minters}, ""
+		}},
+		Ev{Name: "gov:distr(blocked-dest)", Gov: true, Build: func(v View) (sdk.Msg, string) {
+			blocked := dtypes.Account{Id: harness.ModAddr(authtypes.FeeCollectorName).String(), Type: dtypes.BaseAccount}
+			return &dtypes.MsgUpdateParams{Authority: gov, SubDistributors: []dtypes.SubDistributor{{Name: "only", Sources: []*dtypes.Account{{Id: "", Type: dtypes.Main}},
+				Destinations: dtypes.Destinations{PrimaryShare: dAcc(aVRC), BurnShare: sdk.MustNewDecFromStr("0.2"), Shares: []*dtypes.DestinationShare{{Name: "undeliverable", Share: sdk.MustNewDecFromStr("0.3"), Destination: blocked}}}}}}, ""
 		}},
 		Ev{Name: "gov:distr.burn(fees=0.5)", Gov: true, Build: func(v View) (sdk.Msg, string) {
 			return &dtypes.MsgUpdateSubDistributorBurnShareParam{Authority: gov, SubDistributorName: "fees", BurnShare: sdk.MustNewDecFromStr("0.5")}, ""
@@ -182,7 +212,7 @@ func c01Step(si *StepInfo) (interface{}, []*explore.Violation) {
 			bad("mint-vs-event", "bank minted %s, the minter reports %s", minted.AmountOf(mintDenom), mintEvent)
 		}
 		// ... which is what the schedule says (closed form, as long as governance did not replace it)
-		n := &c01Aux{minterUpdated: aux.minterUpdated, minted: new(big.Int).Add(aux.minted, minted.AmountOf(mintDenom).BigInt())}
+		n := &c01Aux{minterUpdated: aux.minterUpdated, minted: new(big.Int).Add(aux.minted, minted.AmountOf(mintDenom).BigInt()), dm: aux.dm}
 		if !aux.minterUpdated {
 			x, eb := c13MinterCfg().Schedule().Cumulative(si.Post.BlockTime())
 			lo, hi := ref.FloorRange(x, eb)
@@ -205,12 +235,113 @@ func c01Step(si *StepInfo) (interface{}, []*explore.Violation) {
 				bad("burn-vs-books", "burned %s%s, burn books say %s (before %s + share %s - after %s)", burned.AmountOf(d), d, want, burnBefore.AmountOf(d), distBurn.AmountOf(d), burnAfter.AmountOf(d))
 			}
 		}
+		// ... and what the configuration says: burned coins and every destination's receipts per the
+		// documented flow (independent of the distributor's own books)
+		dm := aux.dm.Clone()
+		params := w.App.CfedistributorKeeper.GetParams(si.Pre)
+		dm.Subs = subsFromParams(params)
+		dm.PayFails, dm.SweepFails = map[string]bool{}, map[string]bool{}
+		type bankAcc struct {
+			key  string
+			addr sdk.AccAddress
+		}
+		var dests, srcs []bankAcc
+		note := func(a ref.DAccount, isSrc bool) {
+			if a.Type != dtypes.ModuleAccount && a.Type != dtypes.BaseAccount {
+				return
+			}
+			ba := bankAcc{a.Key(), bankAddr(dacc{a.Type, a.ID})}
+			if isSrc {
+				srcs = append(srcs, ba)
+				if a.Type == dtypes.BaseAccount && !coinsEq(w.App.BankKeeper.SpendableCoins(si.Pre, ba.addr), w.App.BankKeeper.GetAllBalances(si.Pre, ba.addr)) {
+					dm.SweepFails[ba.key] = true
+				}
+			} else {
+				dests = append(dests, ba)
+				if a.Type == dtypes.BaseAccount && w.App.BankKeeper.BlockedAddr(ba.addr) {
+					dm.PayFails[ba.key] = true
+				}
+			}
+		}
+		for _, sd := range dm.Subs {
+			for _, a := range sd.Sources {
+				note(a, true)
+			}
+			note(sd.Primary, false)
+			for _, sh := range sd.Shares {
+				note(sh.Dest, false)
+			}
+		}
+		// destinations left over from an earlier configuration are still paid
+		for k := range dm.Pending {
+			for _, pfx := range []string{dtypes.ModuleAccount + "-", dtypes.BaseAccount + "-"} {
+				if len(k) > len(pfx) && k[:len(pfx)] == pfx {
+					t := pfx[:len(pfx)-1]
+					note(ref.DAccount{Type: t, ID: k[len(pfx):]}, false)
+				}
+			}
+		}
+		for _, sa := range srcs { // other actors may have funded or emptied a source since the last block
+			dm.Bal[sa.key] = amtOfCoins(w.App.BankKeeper.GetAllBalances(si.Pre, sa.addr))
+		}
+		dm.Inflow(ref.DAccount{Type: dtypes.Main}, amtOfCoins(minted))
+		destBefore := map[string]ref.Amt{}
+		for _, d := range dests {
+			dm.Bal[d.key] = amtOfCoins(w.App.BankKeeper.GetAllBalances(si.Pre, d.addr))
+			destBefore[d.key] = dm.Bal[d.key].Clone()
+		}
+		burnedBefore := dm.Burned.Clone()
+		dm.Block()
+		isSource := map[string]bool{}
+		for _, sa := range srcs {
+			isSource[sa.key] = true
+		}
+		for d := range denoms {
+			wantBurn := new(big.Int)
+			if dm.Burned[d] != nil {
+				wantBurn.Set(dm.Burned[d])
+			}
+			if burnedBefore[d] != nil {
+				wantBurn.Sub(wantBurn, burnedBefore[d])
+			}
+			if burned.AmountOf(d).BigInt().Cmp(wantBurn) != 0 {
+				bad("burn-vs-configuration", "burned %s%s in this block, the fee-distribution configuration burns %s", burned.AmountOf(d), d, wantBurn)
+			}
+		}
+		seen := map[string]bool{}
+		for _, dd := range dests {
+			if seen[dd.key] || isSource[dd.key] || dd.addr.Equals(harness.ModAddr(dtypes.ValidatorsRewardsCollector)) {
+				continue // validators_rewards_collector is x/distribution's fee collector in this app and is swept by it in the same block
+			}
+			seen[dd.key] = true
+			got := w.App.BankKeeper.GetAllBalances(si.Post, dd.addr)
+			for d := range denoms {
+				want := new(big.Int)
+				if dm.Bal[dd.key] != nil && dm.Bal[dd.key][d] != nil {
+					want.Set(dm.Bal[dd.key][d])
+				}
+				if got.AmountOf(d).BigInt().Cmp(want) != 0 {
+					bad("dist-balance", "destination %s holds %s%s after the block, the configuration gives %s", dd.key, got.AmountOf(d), d, want)
+				}
+			}
+		}
+		mainGot := w.App.BankKeeper.GetAllBalances(si.Post, harness.ModAddr(dtypes.DistributorMainAccount))
+		for d := range denoms {
+			want := new(big.Int)
+			if dm.Bal[ref.AccMain] != nil && dm.Bal[ref.AccMain][d] != nil {
+				want.Set(dm.Bal[ref.AccMain][d])
+			}
+			if mainGot.AmountOf(d).BigInt().Cmp(want) != 0 {
+				bad("dist-main-balance", "the distributor main account holds %s%s after the block, the configuration gives %s", mainGot.AmountOf(d), d, want)
+			}
+		}
+		n.dm = dm
 		return n, vs
 	}
 	// message transitions never change the supply and only move coins between the parties
 	n := aux
 	if _, ok := si.Msg.(*mtypes.MsgUpdateMintersParams); ok && si.Out.Class == harness.OK {
-		n = &c01Aux{minterUpdated: true, minted: aux.minted}
+		n = &c01Aux{minterUpdated: true, minted: aux.minted, dm: aux.dm}
 	}
 	for d := range denoms {
 		if !delta(d).IsZero() {
@@ -251,7 +382,11 @@ func c01Step(si *StepInfo) (interface{}, []*explore.Violation) {
 
 func runC01(rc *RunCtx) {
 	scn := &Scenario{Name: "c01", Genesis: harness.BuildGenesis(c01Genesis()), T0: harness.T0, Events: c01Events(),
-		NewAux:     func(w *harness.World, root sdk.Context) interface{} { return &c01Aux{minted: new(big.Int)} },
+		NewAux: func(w *harness.World, root sdk.Context) interface{} {
+			dm := ref.NewDistModel(nil)
+			dm.Bal[ref.AccMain] = amtOfCoins(w.App.BankKeeper.GetAllBalances(root, harness.ModAddr(dtypes.DistributorMainAccount)))
+			return &c01Aux{minted: new(big.Int), dm: dm}
+		},
 		StepOracle: c01Step, StateOracle: c01State, BlockPanicProperty: ""}
 	depth, budget, maxTraces := 5, 120*time.Second, 2000
 	if rc.Thorough() {
